@@ -293,7 +293,24 @@ def run(prog, rep):
         want = [("arg:tsg_path", "arg:tsg", "*arg:self.statement_location.row", "parser::to_column_range(&*arg:self.statement_location)"),
                 ("arg:tsg_path", "arg:tsg", "*arg:self.stanza_location.row", "parser::to_column_range(&*arg:self.stanza_location)"),
                 ("arg:source_path", "arg:source", "*arg:self.source_location.row", "parser::to_column_range(&*arg:self.source_location)")]
-        norm = [tuple(x.replace("Location::to_column_range", "parser::to_column_range") for x in g) for g in got]
+        def last(x):
+            # `arg:tsg_path` and `**arg:display.tsg_path` name the same thing: the rendering parameters may arrive one by one or bundled
+            return re.sub(r"^[&*]*arg:(\w+\.)*", "arg:", x) if re.match(r"^[&*]*arg:(\w+\.)*(tsg_path|tsg|source_path|source)$", x) else x
+        norm = [tuple(last(x.replace("Location::to_column_range", "parser::to_column_range")) for x in g) for g in got]
+        # … and where they arrive one by one, each caller passes them in the matching positions
+        for cf in prog.fns.values():
+            if cf.body is None:
+                continue
+            ctr = None
+            for cb, ct in cf.body.calls():
+                if is_callee(ct, r"StatementContext::fmt_pretty$"):
+                    ctr = ctr or Tracer(cf.body)
+                    for i, a in enumerate(ct["args"]):
+                        pname = f.body.local_name(i + 1)
+                        if pname in ("tsg_path", "tsg", "source_path", "source"):
+                            ac = canon(strip(ctr.operand(a)))
+                            rep.check(re.search(r"(^|[.:])%s$" % pname, ac) is not None, "E2.x-g", "%s :: fmt_pretty(%s)" % (cf.id, pname), sp_str(ct["sp"]),
+                                      "%s ← %s" % (pname, ac[:60]), "fmt_pretty's parameter %s receives %s" % (pname, ac[:80]))
         rep.check(norm == want, "E2.x-g", "StatementContext::fmt_pretty", f.loc(), "three excerpts: statement (tsg), stanza (tsg), node (source)", "pretty rendering excerpts %s" % got)
         fails = e2._failure_blocks(f.body)
         rets = set(f.body.return_blocks())
